@@ -450,10 +450,12 @@ def convert_data(arr, carrier):
         if not np.array_equal(f32.astype("float64"), arr, equal_nan=True):
             return arr, False
         return f32, True
-    if carrier == "int64":
-        if isn.any() or not np.all(arr == np.floor(arr)):
+    if carrier in ("int64", "int32", "int_list"):
+        if isn.any() or not np.all(arr == np.floor(arr)) or (arr.size and np.max(np.abs(arr)) >= 2 ** 31):
             return arr, False
-        return arr.astype("int64"), True
+        if carrier == "int_list":
+            return [int(v) for v in arr.tolist()], True
+        return arr.astype(carrier), True
     if carrier == "masked_nan":
         return np.ma.masked_invalid(arr.copy()), True
     if carrier == "masked_hidden":
@@ -614,6 +616,30 @@ def fine_variant(name, c):
     return None
 
 
+def integer_series_failures(name, ad, c):
+    """C01 on the implementation: a series of whole numbers may arrive integer-typed (list of ints, int32 / int64
+    array); the call must still return, with the flags of the float64 call"""
+    if name == "valid_range_test" and (c.get("lo") is None or c.get("hi") is None):
+        return 0, []                   # known finding F20 (recorded for C15): integer dtype cannot hold a missing bound
+    base, _ = ad.impl(c)
+    fails, n_eval = [], 0
+    for dc in ("int_list", "int64", "int32"):
+        tr, applied = carrier_transform(dc, None, None)
+        core.KW_TRANSFORM = tr
+        try:
+            got, _ = ad.impl(c)
+        finally:
+            core.KW_TRANSFORM = None
+        if not applied["n"]:
+            continue
+        n_eval += 1
+        if got != base:
+            fails.append({"kind": "predicate", "function": name, "case": c, "impl": base, "impl_carrier": got,
+                          "carrier": {"data": dc},
+                          "clause": f"an integer-typed series ({dc}) does not give the flags of the same numbers as float64"})
+    return n_eval, fails
+
+
 # ------------------------------------------------------------------ shared driver pieces
 
 ALL_MODELS = ["Generated", "Range", "Spike", "Rate", "Location", "Density", "FlatLine", "Attenuated", "Calendar",
@@ -707,10 +733,20 @@ class BufferReuse:
                     b[...] = v
                     self.reused += 1
                 kw[k] = b
+            elif isinstance(v, list) and k in DATA_KEYS + ("tinp",):
+                key = (k, len(v), "list")
+                b = self.buf.get(key)
+                if b is None:
+                    b = list(v)
+                    self.buf[key] = b
+                else:
+                    b[:] = v
+                    self.reused += 1
+                kw[k] = b
         return kw
 
 
-def shared_buffer_history(reg, tier, rng, per_test):
+def shared_buffer_history(reg, tier, rng, per_test, pre=None):
     fails, n_eval, reused = [], 0, 0
     hook = BufferReuse()
     calls = []
@@ -721,7 +757,8 @@ def shared_buffer_history(reg, tier, rng, per_test):
     calls.sort(key=lambda t: (input_length(t[0], t[2]) or 0, rng.random()))
     # pass 1: every call with fresh arrays; pass 2: the same calls, consecutively, with reused buffers
     fresh = [ad.impl(c)[0] for name, ad, c in calls]
-    core.KW_TRANSFORM = hook
+    # pre: an optional carrier conversion applied before the buffers are reused (C15: every mutable carrier)
+    core.KW_TRANSFORM = hook if pre is None else (lambda kw: hook(pre(kw)))
     try:
         got_all = [ad.impl(c)[0] for name, ad, c in calls]
     finally:
